@@ -25,6 +25,7 @@ Record lcase := {
   k_tr_say_text : translations; k_tr_say_audio : translations; k_tr_play_audio : translations;
   (* every non-empty text of the message evaluates to "" (the harness uses an expression reading an unset field) *)
   k_eval_empty : bool;
+  k_say_blank : bool;                               (* say_msg's texts evaluate to a blank: spoken text (trimmed) is empty *)
   (* templated send_msg (a flow of its own): base template variables, their translations, the values observed in the
      message's templating (the template translation has 2 variables) *)
   k_tvars : list text; k_tr_tvars : translations; k_o_tvars : list text;
@@ -128,7 +129,7 @@ Definition check (k : lcase) : bool :=
   && langs_eqb (map o_lang forc) (k_o_forc_lang k)
   && email_eqb (send_email_texts (k_clang k) (k_allowed k) base_lang subj body (k_tr_subject k) (k_tr_body k))
                (k_o_email k)
-  && ivr_eqb (ivr_view (say_msg_out_gen ev_text keep_audio (k_clang k) (k_allowed k) base_lang say (k_audio k)
+  && ivr_eqb (ivr_view (say_msg_out_gen (if k_say_blank k then (fun _ : text => @nil N) else ev_text) keep_audio (k_clang k) (k_allowed k) base_lang say (k_audio k)
                                     (k_tr_say_text k) (k_tr_say_audio k))) (k_o_say k)
   && ivr_eqb (ivr_view (play_audio_out_gen (fun t => t) keep_audio (k_clang k) (k_allowed k) base_lang (k_play k) (k_tr_play_audio k)))
              (k_o_play k).
